@@ -12,6 +12,9 @@ pub struct Viol {
     pub case: Value,
     pub weight: u64,
     pub count: u64,
+    /// the observation is conclusive by itself (e.g. two encodes of one input gave different
+    /// bytes): it is reported even if a single replay of the case does not show it again
+    pub conclusive: bool,
 }
 
 /// Per-worker counters, merged into the report at the end of a run.
@@ -116,6 +119,16 @@ impl Report {
 
     /// Records a violation. `weight` orders cases inside a class: the lightest is kept as the replay.
     pub fn violation(&self, class: &str, what: &str, case: Value, weight: u64) {
+        self.violation_x(class, what, case, weight, false)
+    }
+
+    /// A violation whose observation is conclusive without reproduction (history- or
+    /// schedule-dependent differences between two encodes of the same input).
+    pub fn violation_conclusive(&self, class: &str, what: &str, case: Value, weight: u64) {
+        self.violation_x(class, what, case, weight, true)
+    }
+
+    fn violation_x(&self, class: &str, what: &str, case: Value, weight: u64, conclusive: bool) {
         let mut g = self.viols.lock().unwrap();
         match g.get_mut(class) {
             Some(v) => {
@@ -129,7 +142,7 @@ impl Report {
             None => {
                 g.insert(
                     class.to_string(),
-                    Viol { class: class.to_string(), what: what.to_string(), case, weight, count: 1 },
+                    Viol { class: class.to_string(), what: what.to_string(), case, weight, count: 1, conclusive },
                 );
             }
         }
@@ -190,7 +203,7 @@ impl Report {
             .lock()
             .unwrap()
             .values()
-            .map(|v| json!({"class": v.class, "what": v.what, "case": v.case, "count": v.count}))
+            .map(|v| json!({"class": v.class, "what": v.what, "case": v.case, "count": v.count, "conclusive": v.conclusive}))
             .collect();
         let mut outcomes = self.outcomes.lock().unwrap().clone();
         // keep the histogram readable
